@@ -631,6 +631,8 @@ func genScenario(r *common.Rand, maxItems int) *Scenario {
 		switch {
 		case len(sc.Items) > 0 && r.Chance(3, 4):
 			sc.Last = common.Pick(r, sc.Items).Name
+		case r.Chance(1, 3):
+			sc.Last = common.Pick(r, []string{"a b", "x&y=z", "ü", "%41", "a/b?c", "<a>", "+", "#"})
 		default:
 			sc.Last = genName(r, sc.Kind)
 		}
@@ -1274,7 +1276,7 @@ func main() {
 	}
 	// listings
 	exhaustive(run.Scale(4, 7))
-	for i := 0; i < run.Scale(1500, 250000); i++ {
+	for i := 0; i < run.Scale(6000, 250000); i++ {
 		mx := 12
 		if r.Chance(1, 5) {
 			mx = run.Scale(40, 90)
